@@ -202,15 +202,26 @@ def normalizer_shape(prog, rep, fn, form, rule="normalizer"):
     except ip.AnalysisError as e:
         rep.analysis_error(rule, fn, e, b.where())
         return
-    got = set()
-    for o in outs:
-        dec = [(k, v) for k, v in o.state.log if k[0] == "bool"]
-        r = pl.describe_result(prog, o.value)
-        got.add((tuple((k[1], v) for k, v in dec), r))
+    # Semantics, not shape: returning `s.X().collect()` is always right; returning the argument itself is right
+    # exactly on paths where the code has established that it is normalized — is_X(s) answered true, or the
+    # quick check answered Yes. Every other result (another form, a part of the string, ...) is wrong.
     s_in = ("str", ("input",))
-    q = ("uf", "is_" + form, s_in)
-    want = {
-        (((q, True),), ("Ok", ("input",))),
-        (((q, False),), ("Ok", ("uf", "collect", ("opq", "uf", (form, s_in))))),
-    }
-    rep.ob(rule, "%s: is_%s(s) ? s : s.%s().collect()" % (fn, form, form), got == want, "extracted %s" % sorted(got, key=repr), b.where(), key="%s|%s" % (rule, fn), sample=True)
+    full = ("Ok", ("uf", "collect", ("opq", "uf", (form, s_in))))
+    bad = []
+    n_id = n_full = 0
+    for o in outs:
+        r = pl.describe_result(prog, o.value)
+        dec = {k[1]: v for k, v in o.state.log if isinstance(k, tuple) and k[0] in ("bool", "uf-variant")}
+        if r == full:
+            n_full += 1
+            continue
+        if r == ("Ok", ("input",)):
+            n_id += 1
+            known = dec.get(("uf", "is_" + form, s_in)) is True or any(isinstance(k, tuple) and len(k) == 2 and k[0] == "is_%s_quick" % form and "('input',)" in repr(k[1]) and v == "Yes" for k, v in dec.items())
+            if not known:
+                bad.append("returns its argument unchanged on a path that has not established that it is in %s (decisions: %s)" % (form.upper(), sorted(map(repr, dec.items()))[:3]))
+            continue
+        bad.append("returns %r: neither the argument nor %s of the whole argument" % (r, form.upper()))
+    if not bad and not n_full:
+        bad.append("no path returns the normalized copy s.%s().collect()" % form)
+    rep.ob(rule, "%s: returns s when known to be in %s, else s.%s().collect()" % (fn, form.upper(), form), not bad, "; ".join(sorted(set(bad))[:2]), b.where(), key="%s|%s" % (rule, fn), sample=True)
